@@ -43,6 +43,15 @@ CLAIMED = {
              'dot separators), separator and command-letter obligations, arc flags without separators.',
         note='Arc._parameterize no-op; flags enumerated; arcs ending at the current point excluded; leftmost-longest matching of FLOAT_RE assumed (witnesses go through the real re); token length <= 8 (12 thorough). One recorded known finding (arc flags without separators).',
         design='3/C02'),
+    'C05': dict(
+        text='Real _calc_lengths/T2t/t2T/point/length(T0,T1)/iscontinuous/isclosed/continuous_subpaths run on paths of n<=4 stub segments '
+             '(length = free real l_i >= 0, point = uninterpreted f_k): z3 decides t in [0,1], bracketing by cumulative fractions, '
+             't2T(T2t(T)) = T, point(T) = f_k(t), end points, no exception for T in [0,1] (reals), composition of length(T0,T1), and the '
+             'predicates against their definitions for every coincidence pattern.  Totality under rounding: the same code runs on IEEE '
+             'binary64 symbolic values (QF_FP, n=3; thorough n=2..4): every control path must return a value; an exception path is '
+             'queried for reachability (sampled hints evaluated by z3, then cvc5/z3 race) and replayed.',
+        note='FP part: lengths in [1e-3,1e3]; builtin sum modelled as CPython 3.12 Neumaier summation; zero-division leaves asked with a 3 s budget and reported inconclusive when z3 does not answer. point() of real segments is C03/C04.',
+        design='3/C05'),
 }
 
 NOT_YET = 'check not built yet in this round (see DESIGN.md section 3 for the plan)'
